@@ -20,12 +20,15 @@ from . import c13
 
 PROFILE = {"vmerge": 0.0, "point_comment": 0.0, "hyperlink": 0.0, "ins": 0.0, "del": 0.0, "subst": 0.0, "comment": 0.0,
            "overlap_comment": 0.0, "field": 0.0, "opaque": 0.0, "empty_run": 0.02, "br": 0.0, "literal_tab": 0.0}
-PROFILES = {"default": PROFILE, "cell_edges": dict(PROFILE, table=0.6, heading=0.25), "tables": dict(PROFILE, table=0.45, nested_table=0.25, heading=0.25, fmt=0.6, header=0.4, footer=0.3)}
+PROFILES = {"default": PROFILE,
+            # short paragraphs next to one another, nearly all of them changed: changes merge across separators
+            "dense": dict(PROFILE, blocks=(3, 7), runs=(1, 2), table=0.0, heading=0.1, empty_para=0.1, header=0.0, footer=0.0),
+            "cell_edges": dict(PROFILE, table=0.6, heading=0.25), "tables": dict(PROFILE, table=0.45, nested_table=0.25, heading=0.25, fmt=0.6, header=0.4, footer=0.3)}
 WORD = re.compile(r"[A-Za-z0-9]+")
 NEWW = ["Omega", "revised", "42nd", "carefully", "the parties"]
 
 
-def rewrite(rng, text, cell_edges=False):
+def rewrite(rng, text, cell_edges=False, skip_p=0.35, lead_p=0.0):
     """1..k word-level changes inside paragraphs / table cells (start, middle, end; insert, delete, replace); heading
     prefixes, markers and separators (blank lines, ' | ') are left exactly as they are."""
     changed = 0
@@ -37,7 +40,7 @@ def rewrite(rng, text, cell_edges=False):
             # in-domain stream: the first and the last word of a table cell are left alone (open finding
             # F-diff-cell-edge: a change next to the virtual ' | ' / '# ' text of a cell is placed inside it)
             ws = ws[1:-1]
-        if not ws or rng.random() < 0.35 or (seg.startswith("## ") and seg.upper() == seg):
+        if not ws or rng.random() < skip_p or (seg.startswith("## ") and seg.upper() == seg):
             # (an ALL-CAPS bold paragraph is a heading only by heuristic: rewriting its words would change that)
             return seg
         k = rng.randint(1, min(3, len(ws)))
@@ -70,6 +73,10 @@ def rewrite(rng, text, cell_edges=False):
         return seg
 
     out = []
+    if lead_p and rng.random() < lead_p and text and not text.startswith(("#", "\n", " ", "*", "_")):
+        # a word put in front of everything, also when the text starts with punctuation such as '(a) '
+        text = rng.choice(NEWW) + " " + text
+        changed += 1
     for ln in text.split("\n"):
         cells = []
         for cell in ln.split(" | "):
@@ -94,6 +101,15 @@ def work(case):
 
     if "doc" not in case:
         doc, feats, rng = gen.gen_document(case["seed"], case["index"], PROFILES[case["profile"]])
+        if case.get("stream") in ("default", "dense") and rng.random() < 0.3:
+            # the text of the document starts with punctuation ('(a) …')
+            b0 = doc["body"][0]
+            if "p" in b0 and not b0["p"].get("style") and b0["p"]["nodes"] and b0["p"]["nodes"][0]["k"] == "r":
+                ch = b0["p"]["nodes"][0]["run"]["ch"]
+                run0 = b0["p"]["nodes"][0]["run"]
+                if ch and ch[0]["k"] == "t" and ch[0]["s"][:1].isalpha() and not run0.get("b") and not run0.get("i"):
+                    ch[0]["s"] = "(a) " + ch[0]["s"]
+                    feats = sorted(set(feats) | {"lead_punct"})
         case = dict(case, doc=doc, features=feats)
     else:
         rng = random.Random(case.get("index", 0))
@@ -103,7 +119,9 @@ def work(case):
         orig = extract_text_from_stream(io.BytesIO(data))
         modified = case.get("modified")
         if modified is None:
-            modified, _ = rewrite(rng, orig, cell_edges=(case.get("stream") == "cell_edges"))
+            st = case.get("stream")
+            modified, _ = rewrite(rng, orig, cell_edges=(st == "cell_edges"), skip_p=0.08 if st == "dense" else 0.35,
+                                  lead_p=0.25 if st in ("dense", "default") else 0.0)
         c13._install_recorder()
         c13._rec.clear()
         edits = generate_edits_from_text(orig, modified)
@@ -218,7 +236,8 @@ def nontrivial(res):
 def run(tier, seed, driver_ok):
     return doccheck.run_doc_check(
         "C12", tier, seed, driver_ok, n_quick=300, n_thorough=5000,
-        profiles=[("default", PROFILES["default"], 2), ("tables", PROFILES["tables"], 4), ("cell_edges", PROFILES["cell_edges"], 1)],
+        profiles=[("default", PROFILES["default"], 2), ("dense", PROFILES["dense"], 2), ("tables", PROFILES["tables"], 4),
+                  ("cell_edges", PROFILES["cell_edges"], 1)],
         work=work, oracle=oracle, classify=classify, driver_line=driver_line, compare=compare, nontrivial=nontrivial,
         rule="seeded generated documents without prior revisions (paragraphs, tables, nested tables, headings, bold/"
              "italic runs, headers/footers) x a rewritten version of the extracted text with 1-3 word-level changes per "
